@@ -132,6 +132,8 @@ fn run_tx3c_keep(src_path: &str, out_path: &str, hseed: u64, keep: bool) -> Resu
         .args(&extra)
         .env("LD_PRELOAD", shim_path())
         .env("VERIF_HASH_SEED", hseed.to_string())
+        // the order in which a directory hands out its entries is entropy of the environment too
+        .env("VERIF_DIR_SEED", hseed.to_string())
         .stdout(Stdio::null())
         .stderr(Stdio::null())
         .status()
@@ -152,6 +154,9 @@ pub fn world_c18(tier: Tier, world_no: u64, mut t: Tape) -> WorldReport {
         ..Default::default()
     };
     let examples = example_sources();
+    // programs with a rare top-level shape (`env` declared twice) always get the process-level runs:
+    // what they can disturb (the TII's environment schema) is invisible in-process
+    let mut force_process = false;
     // the first worlds are the example programs, one each; the rest are generated
     let (name, source, from_example) = if (world_no as usize) < examples.len() && t.draw(2) < 2 {
         let (n, s) = examples[world_no as usize].clone();
@@ -169,11 +174,12 @@ pub fn world_c18(tier: Tier, world_no: u64, mut t: Tape) -> WorldReport {
             datum_bias: false,
             },
         );
+        force_process = p.env_twice;
         (format!("generated-{world_no}"), p.source(), false)
     };
     let nseeds = 8usize;
     let seeds: Vec<u64> = (0..nseeds).map(|_| 1 + t.draw(1 << 40)).collect();
-    let do_process = from_example || t.chance(1, if tier == Tier::Quick { 24 } else { 24 });
+    let do_process = from_example || t.chance(1, if tier == Tier::Quick { 24 } else { 24 }) || force_process;
     let multi = multi_field_directive(&source);
     let shape = if multi { "multi-field-directive" } else { "no-multi-field-directive" };
 
@@ -338,6 +344,22 @@ pub fn world_c18(tier: Tier, world_no: u64, mut t: Tape) -> WorldReport {
         let _ = std::fs::create_dir_all(&dir);
         let src_path = dir.join("prog.tx3");
         let _ = std::fs::write(&src_path, &source);
+        // neighbours of the source a build tool might pick up by convention: dotenv files per profile,
+        // in two spellings with different content (which one a directory scan meets first is not a
+        // property of the input)
+        for (fname, tag) in [(".env.dev", "plain"), (".env.dev.local", "local"), (".env.staging", "plain"), (".env.local", "local"), (".env", "root"), ("prog.env", "byname")] {
+            let mut lines: Vec<String> = vec![];
+            for word in source.split_whitespace().collect::<Vec<_>>().windows(2) {
+                if word[0] == "party" {
+                    let n = word[1].trim_end_matches(';');
+                    lines.push(format!("{}=addr_test1{}{}", n.to_uppercase(), tag, n.len()));
+                }
+            }
+            for (k, e) in ["ev0", "ev1", "field_a", "mint_policy"].iter().enumerate() {
+                lines.push(format!("{}={}{}", e.to_uppercase(), tag.len(), k));
+            }
+            let _ = std::fs::write(dir.join(fname), lines.join("\n") + "\n");
+        }
         // half of the process-level worlds build with profiles: a forced profile and one fed from a
         // dotenv file whose keys come in several letter cases (OWNER= / owner=), as env files
         // written by hand do
